@@ -275,3 +275,86 @@ def PL.textObj (p : PL) (cur : Nat) (count : Nat) (around : Bool) : Option (Nat 
   (min cur p.last)
 
 end Vicut
+
+namespace Vicut
+
+/-- Sentences (fix 819437b), over grapheme kinds: 0 other, 1 blank (space, tab), 2 line terminator,
+3 sentence punctuation (`. ! ?`), 4 closer (`) ] " '`). -/
+structure SK where
+  k : List Nat
+  deriving Repr, BEq, DecidableEq
+
+namespace SK
+def len (s : SK) : Nat := s.k.length
+def at_ (s : SK) (i : Nat) : Option Nat := s.k[i]?
+def isK (s : SK) (i v : Nat) : Bool := s.k[i]? == some v
+def lineStart (s : SK) (i : Nat) : Bool := i == 0 || s.isK (i - 1) 2
+
+/-- `while kind(i) == v { i += 1 }` -/
+def skip (s : SK) (v : Nat) : Nat → Nat → Nat
+  | 0, i => i
+  | f + 1, i => if s.isK i v then s.skip v f (i + 1) else i
+
+/-- the blanks and line breaks after a sentence end, stopping in front of an empty line -/
+def skipWhite (s : SK) : Nat → Nat → Nat
+  | 0, i => i
+  | f + 1, i =>
+    if s.isK i 1 then s.skipWhite f (i + 1)
+    else if s.isK i 2 then (if s.isK (i + 1) 2 then i + 1 else s.skipWhite f (i + 1))
+    else i
+
+/-- the sentence starts that position `i` contributes (`sentence_starts`, one round of its loop) -/
+def contrib (s : SK) (i : Nat) : List Nat :=
+  if s.isK i 2 && s.lineStart i then
+    (if i == 0 || (decide (i ≥ 2) && !s.isK (i - 2) 2) then [i] else []) ++
+    (fun k => if decide (k < s.len) && !s.isK k 2 then [k] else [])
+      (s.skip 1 s.len (s.skip 2 s.len i))
+  else if s.isK i 3 then
+    (fun j =>
+      if (match s.at_ j with | none => true | some v => v == 1 || v == 2) then
+        (fun k => if k < s.len then [k] else []) (s.skipWhite s.len j)
+      else [])
+    (s.skip 4 s.len (i + 1))
+  else []
+
+def startsList (s : SK) : List Nat :=
+  (if s.len > 0 then [0] else []) ++ (List.range s.len).flatMap s.contrib
+
+def isStart (s : SK) (i : Nat) : Bool := s.startsList.contains i
+
+/-- `starts.iter().find(|start| start > pos)` on the sorted, deduplicated list -/
+def nextStart (s : SK) (pos : Nat) : Option Nat := (List.range' (pos + 1) (s.len - (pos + 1))).find? s.isStart
+/-- `starts.iter().rev().find(|start| start < pos)` -/
+def prevStart (s : SK) (pos : Nat) : Option Nat := (List.range pos).reverse.find? s.isStart
+
+/-- `(` with a count: `none` = the motion fails -/
+def backGo (s : SK) : Nat → Nat → Option Nat
+  | 0, pos => some pos
+  | n + 1, pos => match s.prevStart pos with | none => none | some p => s.backGo n p
+/-- the last grapheme that is not a line terminator -/
+def lastChar (s : SK) : Option Nat := (List.range s.len).reverse.find? (fun i => !s.isK i 2)
+
+/-- `)` with a count, as a `MotionKind`: to the next sentence starts; when there is none, on to the last
+character of the buffer, which an operator takes. -/
+def fwdGo (s : SK) (cur : Nat) (hasVerb : Bool) : Nat → Nat → MK
+  | 0, pos => if pos == cur then .null else .on pos
+  | n + 1, pos =>
+    match s.nextStart pos with
+    | some st => s.fwdGo cur hasVerb n st
+    | none =>
+      match s.lastChar with
+      | none => .null
+      | some last =>
+        if decide (last ≤ pos) && !(hasVerb && last == pos) then .null
+        else if hasVerb && last == cur then .inclusive last last
+        else .onto last
+
+/-- The `TextObj::Sentence` arm of `eval_motion`. -/
+def evalSentence (s : SK) (cur count : Nat) (fwd hasVerb : Bool) : MK :=
+  if fwd then s.fwdGo cur hasVerb count cur
+  else match s.backGo count cur with
+    | none => .null
+    | some p => if p == cur then .null else .on p
+end SK
+
+end Vicut
